@@ -349,8 +349,17 @@ func init() {
 			}},
 		// the start-up analysis of the controller: which PWM map is used, the sweep that detects it, the supported inputs
 		&group{name: "InitOps", dir: "internal/controller", recvPath: "f", handles: []string{"f.fan", "f.persistence"},
-			skips: map[string]string{"time.Sleep(pwmSetGetDelay)": "only lets time pass (the device model answers at once)"},
+			skips: map[string]string{"time.Sleep(pwmSetGetDelay)": "only lets time pass (the device model answers at once)",
+				"time.Sleep(time.Duration(configuration.CurrentConfig.FanResponseDelay)": "only lets time pass (the device model answers at once)"},
 			ops: []op{
+				{goText: "f.setPwm", lean: "setPwm", args: []string{"Int"}, ret: "Option String"},
+				{goText: "f.getPwm", lean: "getPwm", ret: "Int × Option String"},
+				{goText: "f.waitForFanToSettle", lean: "waitForFanToSettle", ret: "Unit", ignoreArgs: true},
+				{goText: "f.fan.GetRpm", lean: "fan_GetRpm", ret: "Int × Option String"},
+				{goText: "f.fan.SetRpmAvg", lean: "fan_SetRpmAvg", args: []string{"F64"}, ret: "Unit"},
+				{goText: "f.fan.AttachFanRpmCurveData", lean: "fan_AttachFanRpmCurveData", args: []string{"Option (List (Int × F64))"}, ret: "Option String"},
+				{goText: "f.persistence.SaveFanPwmData", lean: "persistence_SaveFanPwmData", ret: "Option String", ignoreArgs: true},
+				{goText: "configuration.CurrentConfig.RunFanInitializationInParallel", lean: "cfg_RunFanInitializationInParallel", ret: "Bool", field: true},
 				{goText: "f.fan.Supports", lean: "fan_Supports", args: []string{"Int"}, ret: "Bool"},
 				{goText: "f.fan.GetPwm", lean: "fan_GetPwm", ret: "Int × Option String"},
 				{goText: "f.fan.SetPwm", lean: "fan_SetPwm", args: []string{"Int"}, ret: "Option String"},
@@ -372,6 +381,7 @@ func init() {
 				{name: "init_computePwmMapAutomatically", recv: "DefaultFanController", fn: "computePwmMapAutomatically", alias: map[string]string{"fan": "f.fan"}},
 				{name: "init_computePwmMapLocked", recv: "DefaultFanController", fn: "computePwmMapLocked"},
 				{name: "init_updateDistinctPwmValues", recv: "DefaultFanController", fn: "updateDistinctPwmValues"},
+				{name: "init_RunInitializationSequence", recv: "DefaultFanController", fn: "RunInitializationSequence"},
 			}},
 		// command fans
 		&group{name: "CmdFanOps", dir: "internal/fans", recvPath: "fan", intTypes: []string{"ControlMode", "FeatureFlag"},
@@ -412,6 +422,23 @@ func init() {
 				{name: "CmdFan_GetPwmEnabled", recv: "CmdFan", fn: "GetPwmEnabled"},
 				{name: "CmdFan_SetPwmEnabled", recv: "CmdFan", fn: "SetPwmEnabled"},
 				{name: "CmdFan_IsPwmAuto", recv: "CmdFan", fn: "IsPwmAuto"},
+			}},
+		// reading and writing the integer registers of hwmon / file fans and sensors
+		&group{name: "FileIoOps", dir: "internal/util", recvPath: "",
+			errs: map[string]string{"fmt.Errorf(\"file is empty": "file is empty"},
+			ops: []op{
+				{goText: "os.ReadFile", lean: "readFile", args: []string{"String"}, ret: "String × Option String"},
+				{goText: "strings.TrimSpace", lean: "trimSpace", args: []string{"String"}, ret: "String"},
+				{goText: "strconv.Atoi", lean: "atoi", args: []string{"String"}, ret: "Int × Option String"},
+				{goText: "filepath.EvalSymlinks", lean: "evalSymlinks", args: []string{"String"}, ret: "String × Option String"},
+				{goText: "os.WriteFile", lean: "writeFile", args: []string{"String", "String", "Int"}, ret: "Option String"},
+				{goText: "atomic.WriteFile", lean: "atomicWriteFile", args: []string{"String", "String"}, ret: "Option String"},
+			},
+			targets: []target{
+				{name: "util_ReadIntFromFile", fn: "ReadIntFromFile"},
+				{name: "util_resolvePath", fn: "resolvePath"},
+				{name: "util_WriteIntToFile", fn: "WriteIntToFile"},
+				{name: "util_WriteIntToFileAtomic", fn: "WriteIntToFileAtomic"},
 			}},
 		// the permission check in front of every external command (C18)
 		&group{name: "PermOps", dir: "internal/util", recvPath: "", intTypes: []string{"os.FileMode"},
@@ -705,8 +732,13 @@ func (t *tr) expr(e ast.Expr) ex {
 					return ex{strconv.FormatInt(v, 10), "const"}
 				}
 			}
-			if _, err := strconv.ParseInt(e.Value, 10, 64); err != nil || (len(e.Value) > 1 && e.Value[0] == '0') {
-				fail("integer literal %s (only decimal and 0o literals)", e.Value)
+			if len(e.Value) > 1 && e.Value[0] == '0' {
+				if v, err := strconv.ParseInt(e.Value[1:], 8, 64); err == nil {
+					return ex{strconv.FormatInt(v, 10), "const"} // 0644
+				}
+			}
+			if _, err := strconv.ParseInt(e.Value, 10, 64); err != nil {
+				fail("integer literal %s (only decimal and octal literals)", e.Value)
 			}
 			return ex{e.Value, "const"}
 		}
@@ -772,6 +804,9 @@ func (t *tr) expr(e ast.Expr) ex {
 		if str(e) == "[]string{}" {
 			return ex{"(#[] : Array String)", "Array String"}
 		}
+		if str(e) == "map[int]float64{}" {
+			return ex{"(some [])", "Option (List (Int × F64))"}
+		}
 		if str(e.Type) == "map[int]int" {
 			// a map literal with constant integer keys: the key-sorted association list
 			type kvp struct {
@@ -820,6 +855,10 @@ func (t *tr) expr(e ast.Expr) ex {
 			if cl, ok := e.X.(*ast.CompositeLit); ok && str(cl.Type) == "map[int]int" {
 				t.note(e, "`%s`: a pointer to a map literal is carried as the map", str(e))
 				return t.expr(cl)
+			}
+			if id, ok := e.X.(*ast.Ident); ok && strings.HasPrefix(t.vars[id.Name], "Option (List (Int × ") {
+				t.note(e, "%s: a pointer to a map variable is carried as the map", str(e))
+				return ex{t.names[id.Name], t.vars[id.Name]}
 			}
 			if id, ok := e.X.(*ast.Ident); ok && t.vars[id.Name] == "Int" {
 				t.note(e, "%s: pointer to an int variable becomes `some %s` (value semantics; the variable must not change afterwards)", str(e), id.Name)
@@ -1108,6 +1147,17 @@ func (t *tr) call(e *ast.CallExpr) []ex {
 		}
 		t.note(e, "fans.ComputePwmBoundaries(fan) is Generated2.fans_ComputePwmBoundaries (transgen2) on the fan's own GetFanRpmCurveData() (dereferenced: nil panics) and GetStartPwm()")
 		return t.results1("(← Go.liftRes (Generated2.fans_ComputePwmBoundaries indef (← Go.deref (← HwMonFan_GetFanRpmCurveData indef ops)) (← HwMonFan_GetStartPwm indef ops) ()))", "Int × Int")
+	case fun == "fmt.Sprintf" && len(e.Args) == 2 && str(e.Args[0]) == `"%d"`:
+		x := t.conv(t.expr(e.Args[1]), "Int", e.Args[1])
+		t.note(e, "`%s`: the decimal text of an int (Go.itoa)", str(e))
+		return []ex{{"(Go.itoa " + x + ")", "String"}}
+	case (fun == "[]byte" || fun == "strings.NewReader") && len(e.Args) == 1:
+		x := t.expr(e.Args[0])
+		if x.ty != "String" {
+			fail("line %d: %s of %s", line(e), fun, x.ty)
+		}
+		t.note(e, "`%s`: bytes / a reader over a string are carried as the string", str(e))
+		return []ex{x}
 	case fun == "string" && len(e.Args) == 1:
 		x := t.expr(e.Args[0])
 		if x.ty != "String" {
@@ -1396,7 +1446,8 @@ func (t *tr) stmt(st ast.Stmt) []string {
 				t.note(st, "SKIPPED (logging): `%s`", str(st))
 				return nil
 			}
-			if strings.HasSuffix(str(c.Fun), "Mu.Lock") || strings.HasSuffix(str(c.Fun), "Mu.Unlock") || strings.HasSuffix(str(c.Fun), ".mu.Lock") {
+			if strings.HasSuffix(str(c.Fun), "Mu.Lock") || strings.HasSuffix(str(c.Fun), "Mu.Unlock") || strings.HasSuffix(str(c.Fun), ".mu.Lock") ||
+				strings.HasSuffix(str(c.Fun), "Mutex.Lock") || strings.HasSuffix(str(c.Fun), "Mutex.Unlock") {
 				t.note(st, "SKIPPED (mutex; mutual exclusion is C20's subject): `%s`", str(st))
 				return nil
 			}
@@ -1416,7 +1467,7 @@ func (t *tr) stmt(st ast.Stmt) []string {
 		}
 		fail("line %d: statement `%s`", ln, str(st))
 	case *ast.DeferStmt:
-		if strings.HasSuffix(str(s.Call.Fun), "Mu.Unlock") || strings.HasSuffix(str(s.Call.Fun), ".mu.Unlock") {
+		if strings.HasSuffix(str(s.Call.Fun), "Mu.Unlock") || strings.HasSuffix(str(s.Call.Fun), ".mu.Unlock") || strings.HasSuffix(str(s.Call.Fun), "Mutex.Unlock") {
 			t.note(st, "SKIPPED (mutex; mutual exclusion is C20's subject): `%s`", str(st))
 			return nil
 		}
@@ -1546,9 +1597,13 @@ func (t *tr) stmt(st ast.Stmt) []string {
 			return []string{t.names[id.Name] + " := " + t.conv(t.expr(rhs), ty, st)}
 		}
 		if ix, ok := s.Lhs[0].(*ast.IndexExpr); ok {
-			if id, ok := ix.X.(*ast.Ident); ok && t.vars[id.Name] == "Option (List (Int × Int))" && s.Tok == token.ASSIGN {
+			if id, ok := ix.X.(*ast.Ident); ok && (t.vars[id.Name] == "Option (List (Int × Int))" || t.vars[id.Name] == "Option (List (Int × F64))") && s.Tok == token.ASSIGN {
 				k := t.conv(t.expr(ix.Index), "Int", ix.Index)
-				v := t.conv(t.expr(rhs), "Int", rhs)
+				vt := "Int"
+				if t.vars[id.Name] == "Option (List (Int × F64))" {
+					vt = "F64"
+				}
+				v := t.conv(t.expr(rhs), vt, rhs)
 				n := t.names[id.Name]
 				return []string{n + " := some (Go.mapPut (← Go.deref " + n + ") " + k + " " + v + ")"}
 			}
@@ -1589,6 +1644,11 @@ func (t *tr) stmt(st ast.Stmt) []string {
 		return t.ifStmt(s)
 	case *ast.SwitchStmt:
 		return t.switchStmt(s)
+	case *ast.BranchStmt:
+		if s.Tok == token.CONTINUE && s.Label == nil {
+			return []string{"continue"}
+		}
+		fail("line %d: %s", ln, s.Tok)
 	case *ast.ForStmt:
 		// `for i := A; i >= B; i-- { ... }` with constant bounds and a body that leaves i alone: `for i in Go.downFrom A B do`
 		as, ok1 := s.Init.(*ast.AssignStmt)
@@ -1706,7 +1766,7 @@ func (t *tr) stmt(st ast.Stmt) []string {
 			fail("line %d: range over %s", ln, xs.ty)
 		}
 		for _, b := range allStmts(s.Body) {
-			if br, ok := b.(*ast.BranchStmt); ok {
+			if br, ok := b.(*ast.BranchStmt); ok && (br.Tok != token.CONTINUE || br.Label != nil) {
 				fail("line %d: %s inside a range loop", line(b), br.Tok)
 			}
 		}
@@ -1946,6 +2006,32 @@ func translate(g *target) (out defOut) {
 		}
 	}
 	var pre []string
+	// a parameter that the body assigns to is a local variable initialised with the argument
+	assigned := map[string]bool{}
+	ast.Inspect(fd.Body, func(n ast.Node) bool {
+		switch s := n.(type) {
+		case *ast.AssignStmt:
+			if s.Tok != token.DEFINE {
+				for _, l := range s.Lhs {
+					if id, ok := l.(*ast.Ident); ok {
+						assigned[id.Name] = true
+					}
+				}
+			}
+		case *ast.IncDecStmt:
+			if id, ok := s.X.(*ast.Ident); ok {
+				assigned[id.Name] = true
+			}
+		}
+		return true
+	})
+	for _, p := range params {
+		for goName, leanName := range t.names {
+			if leanName == p[0] && assigned[goName] {
+				pre = append(pre, "let mut "+p[0]+" : "+p[1]+" := "+p[0])
+			}
+		}
+	}
 	if fd.Type.Results != nil {
 		for _, fl := range fd.Type.Results.List {
 			ty := t.goTyp(fl.Type)
